@@ -297,6 +297,60 @@ def check(ctx, case, reqs, pend):
                                 name, cell, i, j, got, exp), d, cls="C18-%s-value%s" % (name, "-weighted" if weighted else ""))
 
 
+def pooled_statistics(ctx):
+    """the same statistics with the cube's worker pool engaged (a dimension with several columns gives several sub-cubes
+    filled by different workers through the SAME xfunc object): each cell must still hold the statistic of its own rows.
+    Schedules: seeded line-level interleavings and a real ThreadPool; the per-cell expectation is NumPy on the cell's rows."""
+    import pool_common as P
+    from catii import xcube
+    rng = np.random.default_rng(ctx.seed + 18)
+    for rep in range(ctx.n(2)):
+        N, cols = 60, 4
+        A = rng.integers(0, 2, size=(N, cols))
+        B = rng.integers(0, 2, size=N)
+        x = np.round(rng.normal(size=N) * 8) / 8
+        w = rng.choice([0.5, 1.0, 2.0], size=N)
+        for weighted in (False, True):
+            schedules = [("seeded", P.SeededInterleavingPool(int(rng.integers(10**6)), 0.5)) for _ in range(3)]
+            from multiprocessing.pool import ThreadPool
+            schedules.append(("threadpool", ThreadPool))
+            for sname, pool in schedules:
+                cube = xcube([A, B], interacting_shape=(2, 2))
+                cube.parallel = True
+                cube.poolsize = 4
+                cube.pool_class = pool
+                desc = {"pooled_stddev": True, "weighted": weighted, "schedule": sname, "N": N, "columns": cols}
+                ctx.case(desc, nontrivial=True)
+                ctx.hit("pooled_stddev:" + sname)
+                got = P.run_with_timeout(lambda: cube.stddev(x, weights=(w if weighted else None), ignore_missing=True,
+                                                             return_missing_as=(0, False)), 120)
+                if got[0] != "ok":
+                    ctx.oracle_fail("pooled stddev (%s) %s" % (sname, "timed out" if got[0] == "timeout" else "raised %r" % (got[1],)), desc,
+                                    cls="C18-stddev-raises")
+                    continue
+                vals, ok = got[1]
+                bad = None
+                for c in range(cols):
+                    for a in (0, 1):
+                        for b in (0, 1):
+                            rows = np.nonzero((A[:, c] == a) & (B == b))[0]
+                            if len(rows) < 2:
+                                continue
+                            if weighted:
+                                ww = w[rows]
+                                m = np.average(x[rows], weights=ww)
+                                var = np.sum(ww * (x[rows] - m) ** 2) / np.sum(ww) * len(rows) / (len(rows) - 1)
+                                exp = float(np.sqrt(var))
+                            else:
+                                exp = float(np.std(x[rows], ddof=1))
+                            if not ok[c, a, b] or not close(float(vals[c, a, b]), exp):
+                                bad = (c, a, b, float(vals[c, a, b]), exp)
+                if bad:
+                    ctx.oracle_fail("stddev with the pool engaged (%s): block %d cell (%d, %d) = %r, the rows of the cell give %r" % ((sname,) + bad),
+                                    desc, cls="C18-stddev-value")
+                    break
+
+
 def run(ctx):
     core.load_catii()
     warnings.simplefilter("ignore")
@@ -335,6 +389,7 @@ def run(ctx):
             case["fact_form"] = "pair"
         case["readonly"] = it % 3 == 1
         check(ctx, case, reqs, pend)
+    pooled_statistics(ctx)
     if ctx.oracle_only:
         return
     from fractions import Fraction
